@@ -523,6 +523,19 @@ class Check:
         self.coverage["theorems"] = r["theorems"]
         self.coverage["assumptions_by_theorem"] = r["assumptions"]
         self.coverage["coq_seconds"] = round(r["seconds"], 1)
+        if self.thorough and r["ok"]:
+            # independent re-check of the compiled files (and everything they depend on) + axiom listing
+            with Lock("coq"):
+                rc, out, err = sh(["coqchk", "-silent", "-o", "-Q", ".", "PV", "PV.Props." + self.pid], cwd=COQ, timeout=1800)
+            txt = out + err
+            m = re.search(r"\* Axioms:(.*?)\n\s*\n\s*\*", txt, re.S)
+            axioms = m.group(1).strip() if m else "?"
+            self.coverage["coqchk"] = {"rc": rc, "axioms": axioms,
+                                       "type_in_type": "<none>" in (re.search(r"type-in-type:(.*)", txt) or [None, ""])[1] if re.search(r"type-in-type:(.*)", txt) else None}
+            if rc != 0 or axioms != "<none>":
+                r["ok"] = False
+                r["failed"] = "coqchk: rc=%d axioms=%s" % (rc, axioms[:200])
+                self.coverage["discharged"] = 0
         return r
 
     def proof_broken_violation(self, found_input):
